@@ -86,6 +86,18 @@ def hook(rd, e, st, ctx):
                     M2[i, j] = val
                     _save(rd, lv, st, sp.ImmutableMatrix(M2))
                     return [(val, st)]
+        # component store  v.x() = s
+        if l.get('k') == 'MCall' and l.get('m') in ('x', 'y', 'z', 'w') and not l.get('args'):
+            base = strip_casts(l['obj'])
+            lv = rd.lvalue(base, st, ctx)
+            d = dims_of(base['t']['s'])
+            if lv and lv[0] in ('field', 'local', 'localmember') and d is not None and not isinstance(val, sp.MatrixBase):
+                M = _load(rd, lv, st, base, ctx)
+                if M is not None:
+                    M2 = sp.Matrix(M)
+                    M2[{'x': 0, 'y': 1, 'z': 2, 'w': 3}[l['m']], 0] = val
+                    _save(rd, lv, st, sp.ImmutableMatrix(M2))
+                    return [(val, st)]
         # block store  M.block<r,c>(i,j) = sub
         if l.get('k') == 'MCall' and l.get('m') == 'block' and len(l.get('args', [])) in (2, 4):
             base = strip_casts(l['obj'])
